@@ -48,6 +48,12 @@ CONSTANTS Node,          \* node ids
           G_LeaderOwnTerm, G_MajorityOfVoters, G_FlushBeforeAck, G_LeaderFlush,
           G_StaleTermAppend,
           Reduce,        \* state-space reduction: replies that cannot change their receiver are not sent
+          MaxRoundOrd,   \* cap for promotion round ordinals (model bound)
+          RoundFastSet,  \* {TRUE} or BOOLEAN: may a promotion round be slower than PromoteThreshold
+          MaxCfgReqs,    \* number of ChangeConfig requests (model bound)
+          EdAddPromote, EdAddNonvoter, EdPromote, EdDemote, EdRemove, EdForceRemove,  \* node sets: the user edits a ChangeConfig request may combine
+          G_ConfigCommittedFirst, G_OwnTermBeforeConfig, G_PromoteAfterRound, G_NonVoterNoElection, G_StepDownWhenDemoted,
+          FixD2,         \* TRUE = leader.changeConfig caches numVoters of the NEW configuration (repaired)
           KeepHist,      \* record the sequence of events in `hist` (schedule export)
           FixD1          \* TRUE = onVoteRequest as repaired (requests from the known leader take the normal path)
 
@@ -57,10 +63,12 @@ VARIABLES node,   \* [Node -> node record]
           gh,     \* ghost ledgers (RaftProps)
           ctr,    \* [cmds, crashes]
           ev,     \* description of the last step (observation only)
-          hist    \* sequence of events so far (only if KeepHist; schedule export)
+          hist,   \* sequence of events so far (only if KeepHist; schedule export)
+          ordc,   \* the order in which Go's `range l.repls` visits followers in the NEXT step (chosen one step ahead)
+          rfc     \* whether promotion rounds evaluated in the NEXT step count as fast (Duration() <= PromoteThreshold)
 
-vars == <<node, rpcs, orph, gh, ctr, ev, hist>>
-view == <<node, rpcs, orph, gh, ctr>>
+vars == <<node, rpcs, orph, gh, ctr, ev, hist, ordc, rfc>>
+view == <<node, rpcs, orph, gh, ctr, ordc, rfc>>
 
 --------------------------------------------------------------------------
 EmptyCfg == [index |-> 0, term |-> 0, nodes |-> << >>]
@@ -68,8 +76,9 @@ InitNodes == [i \in InitVoters \cup InitNonvoters |-> [voter |-> i \in InitVoter
 InitCfg  == [index |-> 1, term |-> 1, nodes |-> InitNodes]
 CfgEntry(cfg) == [t |-> cfg.term, y |-> "cfg", v |-> 0, c |-> cfg.nodes]
 NoLu == [on |-> FALSE, vprev |-> 0, vlast |-> 0, commit |-> 0, cfg |-> FALSE]
+NoXfer == [on |-> FALSE, term |-> 0, target |-> None, task |-> 0]
 NoLdr == [on |-> FALSE, start |-> 0, numVoters |-> 0, selfVoter |-> FALSE, removeLTE |-> 0,
-          neQ |-> << >>, replQ |-> << >>, repl |-> << >>]
+          neQ |-> << >>, replQ |-> << >>, repl |-> << >>, xfer |-> NoXfer]
 
 InitNode(n) ==
     LET member == n \in InitVoters \cup InitNonvoters IN
@@ -81,7 +90,7 @@ InitNode(n) ==
      cfgC |-> EmptyCfg, cfgL |-> IF member THEN InitCfg ELSE EmptyCfg,
      aborted |-> FALSE, votesNeeded |-> 0, selfVote |-> FALSE, cndTransfer |-> FALSE,
      fsmIdx |-> 0, fsmTerm |-> 0, fsmCmds |-> << >>, fsmQ |-> << >>,
-     ldr |-> NoLdr, outbox |-> {}, done |-> << >>]
+     ldr |-> NoLdr, outbox |-> {}, done |-> << >>, closed |-> FALSE]
 
 --------------------------------------------------------------------------
 (* storage.go / value.go                                                   *)
@@ -114,8 +123,11 @@ SetCommitIndexR(s, idx) ==
     LET s1 == [s EXCEPT !.commit = idx] IN
     IF ~IsCommitted(s1) /\ s1.cfgL.index <= idx
     THEN LET s2 == CommitConfig(s1)
-             s3 == IF s2.state = "L" /\ ~IsVoter(s2.cfgL, s2.id) THEN [s2 EXCEPT !.state = "F", !.leader = None] ELSE s2
-         IN s3
+             s3 == IF s2.state = "L" /\ ~IsVoter(s2.cfgL, s2.id) /\ G_StepDownWhenDemoted
+                   THEN [s2 EXCEPT !.state = "F", !.leader = None] ELSE s2
+             \* ShutdownOnRemove: the node closes itself once its removal is committed
+             s4 == IF s3.id \notin DOMAIN s3.cfgL.nodes THEN [s3 EXCEPT !.closed = TRUE] ELSE s3
+         IN s4
     ELSE s1
 
 \* follower-side Raft.applyCommitted: hand the FSM a view ending at commitIndex
@@ -124,7 +136,7 @@ ApplyCommittedF(s) == [s EXCEPT !.fsmQ = Append(@, [kind |-> "apply", upto |-> s
 --------------------------------------------------------------------------
 (* follower.go / candidate.go                                              *)
 
-CanStartElection(s) == s.cfgL.index > 0 /\ IsVoter(s.cfgL, s.id)
+CanStartElection(s) == s.cfgL.index > 0 /\ (IsVoter(s.cfgL, s.id) \/ (~G_NonVoterNoElection /\ s.id \in DOMAIN s.cfgL.nodes))
 ResetTimer(s) == IF CanStartElection(s) THEN [s EXCEPT !.aborted = FALSE] ELSE s
 
 VoteReqMsg(s, d) == [kind |-> "vote", from |-> s.id, to |-> d, term |-> s.term, transfer |-> s.cndTransfer,
@@ -137,13 +149,26 @@ StartElection(s) ==
     IN [s2 EXCEPT !.outbox = @ \cup {VoteReqMsg(s2, d) : d \in Voters(s.cfgL.nodes) \ {s.id}}]
 
 --------------------------------------------------------------------------
-(* leader.go                                                               *)
+(* leader.go, changeconfig.go, config.go (leader side)                     *)
+(* The Go call graph is mutually recursive (storeEntry -> changeConfig ->  *)
+(* checkConfigActions -> doChangeConfig -> storeEntry; setCommitIndex ->   *)
+(* checkConfigActions; onMajorityCommit -> setCommitIndex) and so are the  *)
+(* operators. s.ord is the order in which `range l.repls` visits the       *)
+(* followers in this step (Go map order: chosen by the action).            *)
+
+Perms(S) == {q \in [1..Cardinality(S) -> S] : \A a \in S : \E k \in 1..Cardinality(S) : q[k] = a}
+AllOrds == Perms(Node)
+CanonOrd == CHOOSE q \in AllOrds : TRUE
+HasActions(nodes) == \E i \in DOMAIN nodes : nodes[i].action # "none"
+
+NoRound == [on |-> FALSE, ord |-> 0, last |-> 0, done |-> FALSE]
 
 NewRepl(s, j) ==
     [next |-> Last(s) + 1, rmatch |-> 0, match |-> 0, noContact |-> FALSE,
      vprev |-> s.ldr.removeLTE, vlast |-> Last(s), rcommit |-> s.commit,
      voter |-> IsVoter(s.cfgL, j), mode |-> "probe", up |-> FALSE, failures |-> 0,
-     reqs |-> << >>, resps |-> << >>, canWrite |-> FALSE, lu |-> NoLu, ended |-> FALSE, term |-> s.term]
+     reqs |-> << >>, resps |-> << >>, canWrite |-> FALSE, lu |-> NoLu, ended |-> FALSE, term |-> s.term,
+     round |-> NoRound]
 
 \* leader.notifyFlr: newest update wins (1-slot channel)
 NotifyFlr(s, inclCfg) ==
@@ -151,9 +176,7 @@ NotifyFlr(s, inclCfg) ==
         [s.ldr.repl[j] EXCEPT !.lu = [on |-> TRUE, vprev |-> s.ldr.removeLTE, vlast |-> Last(s), commit |-> s.commit,
                                       cfg |-> inclCfg]]]]
 
-\* leader.majorityMatchIndex
-MatchSet(s) == [j \in Voters(s.cfgL.nodes) |-> IF j = s.id THEN Last(s)
-                                               ELSE IF j \in DOMAIN s.ldr.repl THEN s.ldr.repl[j].match ELSE 0]
+\* leader.majorityMatchIndex (numVoters and selfVoter are the leader's CACHED values)
 MajorityMatchIndex(s) ==
     IF s.ldr.numVoters = 1 /\ s.ldr.selfVoter THEN Last(s)
     ELSE LET vs == IF G_MajorityOfVoters THEN Voters(s.cfgL.nodes) ELSE DOMAIN s.cfgL.nodes
@@ -172,11 +195,103 @@ ApplyCommittedL(s) ==
     IN [s EXCEPT !.ldr.neQ = SubSeq(q, n + 1, Len(q)),
                  !.fsmQ = Append(@, [kind |-> "apply", upto |-> s.commit, prev |-> s.logPrev, items |-> SubSeq(q, 1, n)])]
 
+IsStableCfg(cfg) == \A i \in DOMAIN cfg.nodes : cfg.nodes[i].action = "none"
+CanChangeConfig(s) == (~G_ConfigCommittedFirst \/ IsCommitted(s)) /\ ~s.ldr.xfer.on
+
+\* config.go Node.nextAction
+NextAction(n) ==
+    IF n.action = "forceRemove" THEN "forceRemove"
+    ELSE IF n.voter THEN (IF n.action \in {"demote", "remove"} THEN "demote" ELSE "none")
+    ELSE IF n.action \in {"promote", "remove"} THEN n.action ELSE "none"
+
+Without(nodes, j) == [i \in (DOMAIN nodes) \ {j} |-> nodes[i]]
+
+\* changeconfig.go beginFinishedRounds
+BeginFinishedRounds(s) ==
+    [s EXCEPT !.ldr.repl = [j \in DOMAIN s.ldr.repl |->
+        LET r == s.ldr.repl[j].round IN
+        IF r.on /\ r.done THEN [s.ldr.repl[j] EXCEPT !.round = [on |-> TRUE, ord |-> Min(r.ord + 1, MaxRoundOrd), last |-> Last(s), done |-> FALSE]]
+        ELSE s.ldr.repl[j]]]
+
+RECURSIVE StoreEntryL(_, _), LeaderChangeConfig(_, _), CheckConfigActions(_, _, _), CheckFollowers(_, _, _, _),
+          CheckConfigAction(_, _, _, _), SetCommitIndexL(_, _), OnMajorityCommit(_)
+
+\* leader.storeEntry for one log entry e = [y, v, c, task]
+StoreEntryL(s, e) ==
+    LET s1 == AppendEntry(s, [t |-> s.term, y |-> e.y, v |-> e.v, c |-> e.c])
+        s2 == [s1 EXCEPT !.ldr.neQ = Append(@, [i |-> Last(s1), y |-> e.y, log |-> TRUE, task |-> e.task, v |-> e.v])]
+        s3 == IF e.y = "cfg" THEN LeaderChangeConfig(s2, [index |-> Last(s1), term |-> s.term, nodes |-> e.c]) ELSE s2
+        s4 == NotifyFlr(BeginFinishedRounds(s3), e.y = "cfg")
+    IN IF s4.ldr.numVoters = 1 /\ s4.ldr.selfVoter THEN OnMajorityCommit(s4) ELSE s4
+
+DoChangeConfig(s, nodes, task) == StoreEntryL(s, [y |-> "cfg", v |-> 0, c |-> nodes, task |-> task])
+
+\* config.go leader.changeConfig -- NOTE numVoters is computed from the configuration being REPLACED
+LeaderChangeConfig(s, cfg) ==
+    LET nv == IF FixD2 THEN NumVoters(cfg) ELSE NumVoters(s.cfgL)
+        s1 == [s EXCEPT !.ldr.selfVoter = IsVoter(cfg, s.id), !.ldr.numVoters = nv]
+        s2 == ChangeConfig(s1, cfg)
+        keep == (DOMAIN s2.ldr.repl) \cap (DOMAIN cfg.nodes)
+        add  == ((DOMAIN cfg.nodes) \ {s.id}) \ DOMAIN s2.ldr.repl
+        s3 == [s2 EXCEPT !.ldr.repl = [j \in keep \cup add |-> IF j \in keep THEN s2.ldr.repl[j] ELSE NewRepl(s2, j)]]
+    IN CheckConfigActions(s3, s3.cfgL.nodes, 0)
+
+\* changeconfig.go checkConfigActions
+CheckConfigActions(s, nodes, task) ==
+    LET selfIn == s.id \in DOMAIN nodes
+        act == IF selfIn THEN nodes[s.id].action ELSE "none"
+    IN IF CanChangeConfig(s) /\ act # "none"
+       THEN IF act = "demote"
+            THEN LET nn == [nodes EXCEPT ![s.id] = [voter |-> FALSE, action |-> "none"]]
+                 IN CheckFollowers(DoChangeConfig(s, nn, task), nn, task, 1)
+            ELSE IF act \in {"remove", "forceRemove"}
+            THEN LET nn == Without(nodes, s.id)
+                 IN CheckFollowers(DoChangeConfig(s, nn, task), nn, task, 1)
+            ELSE [s EXCEPT !.died = "unreachable: promote on self"]
+       ELSE CheckFollowers(s, nodes, task, 1)
+
+\* `for _, repl := range l.repls { l.checkConfigAction(t, config, &repl.status) }` in the order s.ord
+CheckFollowers(s, nodes, task, k) ==
+    IF k > Len(ordc) THEN s
+    ELSE LET j == ordc[k] IN
+         IF j \in DOMAIN s.ldr.repl THEN CheckFollowers(CheckConfigAction(s, nodes, j, task), nodes, task, k + 1)
+         ELSE CheckFollowers(s, nodes, task, k + 1)
+
+\* changeconfig.go checkConfigAction
+CheckConfigAction(s, nodes, j, task) ==
+    IF j \notin DOMAIN nodes THEN s
+    ELSE
+    LET n == nodes[j]
+        action == NextAction(n)
+        Perform(sx) ==
+            IF ~CanChangeConfig(sx) THEN sx
+            ELSE IF action = "promote" THEN DoChangeConfig(sx, [nodes EXCEPT ![j] = [voter |-> TRUE, action |-> "none"]], task)
+            ELSE IF action = "remove"
+                 THEN (IF sx.ldr.repl[j].match >= sx.cfgL.index THEN DoChangeConfig(sx, Without(nodes, j), task) ELSE sx)
+            ELSE IF action = "forceRemove" THEN DoChangeConfig(sx, Without(nodes, j), task)
+            ELSE DoChangeConfig(sx, [nodes EXCEPT ![j] = [voter |-> FALSE, action |-> IF n.action = "demote" THEN "none" ELSE n.action]], task)
+    IN IF action = "none" THEN s
+       ELSE LET r0 == s.ldr.repl[j].round
+                s1 == IF action # "promote" THEN [s EXCEPT !.ldr.repl[j].round = NoRound]
+                      ELSE IF ~r0.on THEN [s EXCEPT !.ldr.repl[j].round = [on |-> TRUE, ord |-> 1, last |-> Last(s), done |-> FALSE]]
+                      ELSE s
+                r1 == s1.ldr.repl[j].round
+            IN IF r1.on /\ G_PromoteAfterRound
+               THEN LET r2 == IF ~r1.done /\ s1.ldr.repl[j].match >= r1.last THEN [r1 EXCEPT !.done = TRUE] ELSE r1
+                        s2 == [s1 EXCEPT !.ldr.repl[j].round = r2]
+                    IN IF ~r2.done THEN s2
+                       ELSE IF Last(s2) > s2.ldr.repl[j].match /\ ~rfc
+                       THEN [s2 EXCEPT !.ldr.repl[j].round = [on |-> TRUE, ord |-> Min(r2.ord + 1, MaxRoundOrd), last |-> Last(s2), done |-> FALSE]]
+                       ELSE Perform(s2)
+               ELSE Perform(s1)
+
 \* config.go leader.setCommitIndex: flush, advance, config bookkeeping
 \* (CommitN flushes the whole last segment: everything appended so far becomes durable)
 SetCommitIndexL(s, idx) ==
     LET s1 == IF G_LeaderFlush THEN CommitLog(s) ELSE s
-    IN SetCommitIndexR(s1, idx)
+        committedNow == ~IsCommitted(s1) /\ s1.cfgL.index <= idx
+        s2 == SetCommitIndexR(s1, idx)
+    IN IF committedNow /\ ~IsStableCfg(s2.cfgL) THEN CheckConfigActions(s2, s2.cfgL.nodes, 0) ELSE s2
 
 \* leader.onMajorityCommit
 OnMajorityCommit(s) ==
@@ -185,26 +300,21 @@ OnMajorityCommit(s) ==
     THEN NotifyFlr(ApplyCommittedL(SetCommitIndexL(s, m)), FALSE)
     ELSE s
 
-\* leader.storeEntry for one log entry (no-op / update)
-StoreLogEntry(s, y, v, task) ==
-    LET e  == [t |-> s.term, y |-> y, v |-> v, c |-> << >>]
-        s1 == AppendEntry(s, e)
-        s2 == [s1 EXCEPT !.ldr.neQ = Append(@, [i |-> Last(s1), y |-> y, log |-> TRUE, task |-> task, v |-> v])]
-        s3 == NotifyFlr(s2, FALSE)
-    IN IF s3.ldr.numVoters = 1 /\ s3.ldr.selfVoter THEN OnMajorityCommit(s3) ELSE s3
+StoreLogEntry(s, y, v, task) == StoreEntryL(s, [y |-> y, v |-> v, c |-> << >>, task |-> task])
 
 \* leader.init
 LeaderInit(s) ==
     LET l0 == [on |-> TRUE, start |-> Last(s) + 1, numVoters |-> NumVoters(s.cfgL),
                selfVoter |-> IsVoter(s.cfgL, s.id), removeLTE |-> s.logPrev,
-               neQ |-> << >>, replQ |-> << >>, repl |-> << >>]
+               neQ |-> << >>, replQ |-> << >>, repl |-> << >>, xfer |-> NoXfer]
         s1 == [s EXCEPT !.ldr = l0]
         s2 == [s1 EXCEPT !.ldr.repl = [j \in (DOMAIN s.cfgL.nodes) \ {s.id} |-> NewRepl(s1, j)]]
-    IN StoreLogEntry(s2, "nop", 0, 0)
+        s3 == CheckConfigActions(s2, s2.cfgL.nodes, 0)
+    IN StoreLogEntry(s3, "nop", 0, 0)
 
 \* leader.release: pending entries fail with NotLeaderError{Lost: true}
 LeaderRelease(s) ==
-    LET lost == [k \in 1..Len(s.ldr.neQ) |-> [task |-> s.ldr.neQ[k].task, res |-> "notLeaderLost", pos |-> 0]]
+    LET lost == [k \in 1..Len(s.ldr.neQ) |-> [task |-> s.ldr.neQ[k].task, res |-> IF s.closed THEN "serverClosed" ELSE "notLeaderLost", pos |-> 0]]
     IN [s EXCEPT !.leader = IF s.leader = s.id THEN None ELSE @,
                  !.done = @ \o SelectSeq(lost, LAMBDA d : d.task # 0),
                  !.ldr = NoLdr]
@@ -221,16 +331,36 @@ RECURSIVE DrainReplQ(_, _, _)
 DrainReplQ(s, mU, nU) ==
     IF s.ldr.replQ = << >> THEN
         LET s1 == IF mU THEN OnMajorityCommit(s) ELSE s
-            s2 == IF nU /\ s1.state = "L" THEN CheckQuorum(s1) ELSE s1
+            s2 == IF nU THEN CheckQuorum(s1) ELSE s1
         IN s2
     ELSE LET u == Head(s.ldr.replQ)
              s0 == [s EXCEPT !.ldr.replQ = Tail(@)]
          IN IF u.j \notin DOMAIN s0.ldr.repl THEN DrainReplQ(s0, mU, nU)
-            ELSE IF u.kind = "match" THEN DrainReplQ([s0 EXCEPT !.ldr.repl[u.j].match = u.val], TRUE, nU)
+            ELSE IF u.kind = "match"
+                 THEN LET s1 == [s0 EXCEPT !.ldr.repl[u.j].match = u.val]
+                          nd == IF u.j \in DOMAIN s1.cfgL.nodes THEN s1.cfgL.nodes[u.j] ELSE [voter |-> FALSE, action |-> "none"]
+                          \* status.node is the node as of the last leader.changeConfig = cfgL
+                          s2 == IF ~nd.voter /\ nd.action # "none" THEN CheckConfigAction(s1, s1.cfgL.nodes, u.j, 0) ELSE s1
+                      IN DrainReplQ(s2, TRUE, nU)
             ELSE IF u.kind = "noContact" THEN DrainReplQ([s0 EXCEPT !.ldr.repl[u.j].noContact = u.val], mU, TRUE)
             ELSE IF u.kind = "newTerm" THEN SetTerm([s0 EXCEPT !.state = "F", !.leader = None], u.val)
             ELSE DrainReplQ(s0, mU, nU)
 CheckReplUpdates(s) == IF s.ldr.on /\ s.ldr.replQ # << >> THEN DrainReplQ(s, FALSE, FALSE) ELSE s
+
+\* changeconfig.go onChangeConfig (user request: the complete new node map)
+ValidNode(n) == ~(n.action = "promote" /\ n.voter) /\ ~(n.action = "demote" /\ ~n.voter)
+OnChangeConfig(s, nodes, task) ==
+    LET reply(res) == [s EXCEPT !.done = Append(@, [task |-> task, res |-> res, pos |-> 0])]
+        cur == s.cfgL.nodes
+    IN IF ~IsCommitted(s) THEN reply("inProgress")
+       ELSE IF s.commit < s.ldr.start /\ G_OwnTermBeforeConfig THEN reply("notCommitReady")
+       ELSE IF \E i \in DOMAIN nodes : ~ValidNode(nodes[i]) THEN reply("invalid")
+       ELSE IF Voters(nodes) = {} THEN reply("invalid")
+       ELSE IF \E i \in DOMAIN cur : i \notin DOMAIN nodes \/ nodes[i].voter # cur[i].voter THEN reply("invalid")
+       ELSE IF \E i \in (DOMAIN nodes) \ DOMAIN cur : nodes[i].voter THEN reply("invalid")
+       ELSE IF ~\E i \in DOMAIN nodes : nodes[i].voter /\ nodes[i].action = "none" THEN reply("invalid")
+       ELSE LET s1 == CheckConfigActions(s, nodes, task)
+            IN IF IsCommitted(s1) THEN DoChangeConfig(s1, nodes, task) ELSE s1
 
 --------------------------------------------------------------------------
 (* stateLoop mirror: complete role changes                                 *)
@@ -241,8 +371,15 @@ Release(s, role) == IF role = "L" THEN LeaderRelease(s)
 Init_(s, role) == IF role = "L" THEN LeaderInit(s)
                   ELSE IF role = "C" THEN StartElection(s)
                   ELSE [s EXCEPT !.aborted = FALSE]
+\* a node that closed itself (removed): stateLoop returns, the current role is released; nothing is flushed
+Stopped(s) ==
+    [s EXCEPT !.up = FALSE, !.state = "D", !.cur = "D", !.leader = None, !.commit = 0,
+              !.log = SubSeq(@, 1, s.synced - s.logPrev), !.term = s.dterm, !.vote = s.dvote,
+              !.aborted = FALSE, !.votesNeeded = 0, !.selfVote = FALSE, !.cndTransfer = FALSE,
+              !.fsmIdx = 0, !.fsmTerm = 0, !.fsmCmds = << >>, !.fsmQ = << >>, !.ldr = NoLdr, !.closed = FALSE]
 RECURSIVE Post(_)
-Post(s) == IF s.state = s.cur THEN s
+Post(s) == IF s.closed THEN Stopped(Release(s, s.cur))
+           ELSE IF s.state = s.cur THEN s
            ELSE Post(Init_([Release(s, s.cur) EXCEPT !.cur = s.state], s.state))
 
 --------------------------------------------------------------------------
@@ -389,8 +526,11 @@ Commit(ns, newRpcs, newOrph, e) ==
     /\ rpcs' = newRpcs \cup Outs(ns)
     /\ orph' = (IF Orphans THEN newOrph \cup Abandoned(node, ns1) ELSE newOrph)
     /\ gh' = GhostStep(gh, node, ns1, e)
-    /\ ev' = e
-    /\ hist' = IF KeepHist THEN Append(hist, e) ELSE hist
+    /\ ev' = e @@ [rf |-> rfc]
+    /\ hist' = IF KeepHist THEN Append(hist, e @@ [rf |-> rfc]) ELSE hist
+    /\ LET pend == (\E n \in Node : HasActions(ns1[n].cfgL.nodes)) \/ ctr.cfgReqs < MaxCfgReqs
+       IN /\ ordc' \in (IF pend THEN AllOrds ELSE {<< >>})
+          /\ rfc' \in (IF pend THEN RoundFastSet ELSE {TRUE})
 
 Timeout(n) ==
     /\ Up(n)
@@ -626,6 +766,29 @@ ClientOp(n, id) ==
 
 Client(n) == ClientOp(n, ctr.cmds + 1)
 
+\* ---- membership requests (raft.go executeTask -> leader.onChangeConfig / Raft.bootstrap) ----
+CfgEdits == {[id |-> i, kind |-> "addPromote"] : i \in EdAddPromote} \cup {[id |-> i, kind |-> "addNonvoter"] : i \in EdAddNonvoter}
+       \cup {[id |-> i, kind |-> "promote"] : i \in EdPromote} \cup {[id |-> i, kind |-> "demote"] : i \in EdDemote}
+       \cup {[id |-> i, kind |-> "remove"] : i \in EdRemove} \cup {[id |-> i, kind |-> "forceRemove"] : i \in EdForceRemove}
+ApplyEdit(nodes, e) ==
+    IF e.kind \in {"addNonvoter", "addPromote"}
+    THEN IF e.id \in DOMAIN nodes THEN nodes
+         ELSE [i \in (DOMAIN nodes) \cup {e.id} |-> IF i = e.id THEN [voter |-> FALSE, action |-> IF e.kind = "addPromote" THEN "promote" ELSE "none"] ELSE nodes[i]]
+    ELSE IF e.id \in DOMAIN nodes THEN [nodes EXCEPT ![e.id].action = e.kind] ELSE nodes
+RECURSIVE ApplyEdits(_, _)
+ApplyEdits(nodes, S) == IF S = {} THEN nodes ELSE LET e == CHOOSE x \in S : TRUE IN ApplyEdits(ApplyEdit(nodes, e), S \ {e})
+CfgRequests(s) == {ApplyEdits(s.cfgL.nodes, S) : S \in {T \in SUBSET CfgEdits : Cardinality(T) \in 1..2 /\ \A a, b \in T : a.id = b.id => a = b}} \ {s.cfgL.nodes}
+
+ChangeConfigOp(n, nodes) ==
+    /\ Up(n) /\ node[n].state = "L" /\ node[n].cur = "L" /\ ctr.cfgReqs < MaxCfgReqs
+    /\ Last(node[n]) < MaxLog
+    /\ LET task == 1000 + ctr.cfgReqs + 1
+       IN Commit([node EXCEPT ![n] = Post(OnChangeConfig(node[n], nodes, task))], rpcs, orph,
+                 [kind |-> "changeConfig", n |-> n, task |-> task,
+                  nodes |-> [i \in DOMAIN nodes |-> nodes[i]]])
+    /\ ctr' = [ctr EXCEPT !.cfgReqs = @ + 1]
+ChangeConfigReq(n) == \E nodes \in CfgRequests(node[n]) : ChangeConfigOp(n, nodes)
+
 Fsm(n) ==
     /\ ~EagerFsm /\ Up(n) /\ node[n].fsmQ # << >>
     /\ Commit([node EXCEPT ![n] = FsmItem(node[n])], rpcs, orph, [kind |-> "fsm", n |-> n])
@@ -675,7 +838,7 @@ Restart(n) ==
     /\ UNCHANGED ctr
 
 --------------------------------------------------------------------------
-InitVal == [node |-> [n \in Node |-> InitNode(n)], ctr |-> [cmds |-> 0, crashes |-> 0, elections |-> 0]]
+InitVal == [node |-> [n \in Node |-> InitNode(n)], ctr |-> [cmds |-> 0, crashes |-> 0, elections |-> 0, cfgReqs |-> 0]]
 Init ==
     /\ node = InitVal.node
     /\ rpcs = {} /\ orph = {}
@@ -683,6 +846,7 @@ Init ==
     /\ ctr = InitVal.ctr
     /\ ev = [kind |-> "init"]
     /\ hist = << >>
+    /\ ordc \in (IF MaxCfgReqs > 0 THEN AllOrds ELSE {<< >>}) /\ rfc \in (IF MaxCfgReqs > 0 THEN RoundFastSet ELSE {TRUE})
 \* back to the initial state (trace validation: a new recorded run starts)
 Reset ==
     /\ node' = InitVal.node
@@ -691,8 +855,10 @@ Reset ==
     /\ ctr' = InitVal.ctr
     /\ ev' = [kind |-> "init"]
     /\ hist' = << >>
+    /\ ordc' \in (IF MaxCfgReqs > 0 THEN AllOrds ELSE {<< >>}) /\ rfc' \in (IF MaxCfgReqs > 0 THEN RoundFastSet ELSE {TRUE})
 
 Next ==
+    \/ \E n \in Node : ChangeConfigReq(n)
     \/ \E n \in Node : Timeout(n) \/ SelfVote(n) \/ Client(n) \/ Fsm(n) \/ Crash(n) \/ Restart(n) \/ LdrUpdates(n)
     \/ \E m \in rpcs : RpcReq(m) \/ RpcResp(m)
     \/ \E n, p \in Node : Disconnected(n, p)
